@@ -13,8 +13,8 @@ Definition item_ok (it : item) : Prop :=
 (* ---- sort_items ---- *)
 Lemma insert_i_perm x l : Permutation (insert_i x l) (x :: l).
 Proof.
-  induction l as [|y l IH]; cbn; [apply Permutation_refl|].
-  destruct (length (snd y) <=? length (snd x))%nat; [|apply Permutation_refl].
+  induction l as [|y l IH]; cbn [insert_i]; [apply Permutation_refl|].
+  destruct (length (snd y) <? length (snd x))%nat; [|apply Permutation_refl].
   eapply Permutation_trans; [apply perm_skip; exact IH|apply perm_swap].
 Qed.
 Lemma sort_items_perm l : Permutation (sort_items l) l.
